@@ -6,7 +6,7 @@ import json, os, re
 from collections import Counter
 
 PKG = "vdr/didsubject"
-HARNESS = ["vdr/didsubject/zz_verif_c13_test.go"]
+HARNESS = ["vdr/didsubject/zz_verif_c13_test.go", "vdr/didsubject/zz_verif_c13_export.go"]
 WPKG = "vdr"
 WHARNESS = ["vdr/zz_verif_c13w_test.go"]
 HARNESSES = [(PKG, HARNESS, "c13"), (WPKG, WHARNESS, "c13w")]
@@ -280,6 +280,30 @@ def run(ctx):
                         stats["req:created-under-given-name"] += 1
                     elif legacy:
                         stats["req:created-under-v1-name"] += 1
+        if kind == "sort":
+            # the pure sort helpers: the answer is the input ordered by (position in the preferred order, unlisted first by method name);
+            # every document comes back at the place of its ID (of several documents with one ID the first one)
+            for k, op in enumerate(w["ops"]):
+                if op["op"] != "sort":
+                    continue
+                line = impl[w["start"] + k]
+                m = re.search(r"ids=(\S*) docs=(\S*)", line)
+                ids_in, ms_in = op.get("ids", []), op.get("methods", [])
+                pref = pref_of(op.get("pref", ""))
+                stats["sort:n=%d" % len(ids_in)] += 1
+                stats["sort:pref-len=%d" % len(pref)] += 1
+                if m is None:
+                    report("C13:panic", f"event {k} (sort): {line[:160]}", w)
+                    continue
+                got = [x for x in m.group(1).split(",") if x]
+                gotd = [x for x in m.group(2).split(",") if x]
+                meth = dict(zip(ids_in, ms_in))
+                want = sorted(ids_in, key=lambda i: pref_key(pref, meth[i]))
+                if got != want:
+                    report("C13:sort-dids-wrong-order", f"event {k}: sortDIDsByMethod({ids_in}, {pref}) = {got}, expected {want}", w)
+                wantd = [f"{i}@{ids_in.index(i)}" for i in want]
+                if gotd != wantd:
+                    report("C13:sort-documents-lost-or-misplaced", f"event {k}: sortDIDDocumentsByMethod({ids_in}, {pref}) = {gotd}, expected {wantd}", w)
         if kind == "tx2":
             # a DB error in the clean-up transaction: the caller is told, the early sweep leaves the young records alone, the sweep past the
             # threshold keeps what every method published and removes (on EVERY DID) what did:nuts did not publish; no record remains
@@ -446,6 +470,7 @@ def run(ctx):
                        "Every event is observed through ListDIDs / Resolve / FindServices / version numbers / did_change_log and key_reference counts / the didstore. "
                        "Request worlds ('req'): Create with option LISTS (given names that are free / taken / ill-formed, v1 naming before and after a name, encryption key, unknown option, "
                        "repeats; fixed + random lists; faults on a Create with options), AddVerificationMethod with a key-agreement usage, on nuts+web / web+nuts / nuts / web with 8 PreferredOrder values. "
+                       "Sort world: sortDIDsByMethod / sortDIDDocumentsByMethod on 0-5 DIDs of pairwise different methods out of 5 (+ repeats of one DID), random preferred orders with unlisted / repeated / foreign entries. "
                        "Clean-up-failure worlds ('tx2'): a real DB error at the first DELETE of transactionHelper's second transaction, alone and after a failed did:nuts Commit, for each of the 6 operations "
                        "(+ a no-change operation), early sweep, sweep past the threshold, retry. "
                        "distinct_nontrivial = distinct worlds (event lists without map order)")
@@ -557,7 +582,8 @@ REQUIRED_DEEP = ["uniform_versions", "versions_consecutive", "versions_consecuti
                  "create_request_refines", "add_key_request_refines", "create_request_reach", "add_key_request_reach",
                  "key_agreement_on_web_changes_no_did", "create_with_encryption_key_on_web_creates_nothing",
                  "create_request_order_independent", "ill_formed_option_refuses", "option_names_are_not_dids",
-                 "list_dids_sorted_permutation", "list_dids_order_unique", "cleanup_failure_reach"]
+                 "list_dids_sorted_permutation", "list_dids_order_unique", "cleanup_failure_reach",
+                 "sorted_documents_are_a_permutation"]
 
 
 def pref_of(s):
